@@ -1,4 +1,1239 @@
 package main
 
-func l2Parent(args []string) int { return 2 }
-func l2Child(args []string) int  { return 2 }
+// L2: wire-level fault scripts against the REAL websocket.Handle behind an httptest server, with
+// the production decorator stack of cmd/main.go (HandlerWithMetrics(HandlerWithLogs(RealtimeHandler)))
+// and the three modules.  The only additions are observers: the handler closure records when
+// websocket.Handle returns (and whether by panic), and an outermost decorator counts the calls of
+// HandleDisconnect.  Clients are x/net/websocket clients over TCP connections the harness owns
+// (so that it can stop reading, reset, or write arbitrary bytes).
+
+import (
+	"bufio"
+	"bytes"
+	"context"
+	"encoding/binary"
+	"encoding/json"
+	"flag"
+	"fmt"
+	"math"
+	"net"
+	"net/http"
+	"net/http/httptest"
+	"net/url"
+	"os"
+	"os/exec"
+	"regexp"
+	"runtime/pprof"
+	"sort"
+	"strconv"
+	"strings"
+	"sync"
+	"sync/atomic"
+	"syscall"
+	"time"
+
+	"github.com/aukilabs/hagall-common/messages/dagazpb"
+	"github.com/aukilabs/hagall-common/messages/hagallpb"
+	"github.com/aukilabs/hagall-common/ncsclient"
+	"github.com/aukilabs/hagall/featureflag"
+	"github.com/aukilabs/hagall/models"
+	"github.com/aukilabs/hagall/modules"
+	"github.com/aukilabs/hagall/modules/dagaz"
+	"github.com/aukilabs/hagall/modules/odal"
+	"github.com/aukilabs/hagall/modules/vikja"
+	hagallws "github.com/aukilabs/hagall/websocket"
+	"github.com/prometheus/client_golang/prometheus"
+	"golang.org/x/net/websocket"
+	"google.golang.org/protobuf/proto"
+	"google.golang.org/protobuf/types/known/timestamppb"
+)
+
+// ---------------------------------------------------------------- server side
+
+type connRec struct {
+	ID          int
+	Tag         string
+	returned    chan struct{}
+	normal      bool // Handle returned by a normal return (false: by panic)
+	discCalls   int32
+	returnedAt  time.Time
+}
+
+type countingHandler struct {
+	hagallws.Handler
+	rec *connRec
+}
+
+func (c *countingHandler) HandleDisconnect(err error) {
+	atomic.AddInt32(&c.rec.discCalls, 1)
+	c.Handler.HandleDisconnect(err)
+}
+
+type l2server struct {
+	ts    *httptest.Server
+	store *models.SessionStore
+	mu    sync.Mutex
+	recs  map[string]*connRec
+	n     int
+}
+
+func dur(q url.Values, k string, def time.Duration) time.Duration {
+	if v := q.Get(k); v != "" {
+		if d, err := time.ParseDuration(v); err == nil {
+			return d
+		}
+	}
+	return def
+}
+
+func newL2Server() *l2server {
+	s := &l2server{store: &models.SessionStore{}, recs: map[string]*connRec{}}
+	receiptChan := make(chan ncsclient.ReceiptPayload, 128)
+	go func() {
+		for range receiptChan {
+		}
+	}()
+	ctx := context.Background()
+	mux := http.NewServeMux()
+	// the closure below is cmd/main.go's, with the observers added
+	mux.Handle("/", websocket.Server{
+		Handler: func(conn *websocket.Conn) {
+			defer conn.Close()
+			q := conn.Request().URL.Query()
+			var rh hagallws.Handler = &hagallws.RealtimeHandler{
+				ClientSyncClockInterval: dur(q, "sync", 5*time.Second),
+				ClientIdleTimeout:       dur(q, "idle", 5*time.Minute),
+				FrameDuration:           15 * time.Millisecond,
+				Sessions:                s.store,
+				Modules:                 []modules.Module{&vikja.Module{}, &odal.Module{}, &dagaz.Module{}},
+				FeatureFlags:            featureflag.New(nil),
+				ReceiptChan:             receiptChan,
+				PrivateKey:              theKey,
+			}
+			h := hagallws.HandlerWithLogs(rh, time.Minute)
+			h = hagallws.HandlerWithMetrics(h, "http://l2.test")
+			defer h.Close()
+
+			rec := s.begin(q.Get("tag"))
+			defer func() {
+				rec.returnedAt = time.Now()
+				close(rec.returned)
+			}()
+			hagallws.Handle(ctx, conn, &countingHandler{Handler: h, rec: rec})
+			rec.normal = true
+		},
+	})
+	s.ts = httptest.NewServer(mux)
+	s.ts.Config.ErrorLog = nil
+	return s
+}
+
+func (s *l2server) begin(tag string) *connRec {
+	s.mu.Lock()
+	defer s.mu.Unlock()
+	s.n++
+	r := &connRec{ID: s.n, Tag: tag, returned: make(chan struct{})}
+	s.recs[tag] = r
+	return r
+}
+
+func (s *l2server) rec(tag string, wait time.Duration) *connRec {
+	dl := time.Now().Add(wait)
+	for {
+		s.mu.Lock()
+		r := s.recs[tag]
+		s.mu.Unlock()
+		if r != nil || time.Now().After(dl) {
+			return r
+		}
+		time.Sleep(time.Millisecond)
+	}
+}
+
+func gaugeClients() float64 {
+	mfs, err := prometheus.DefaultGatherer.Gather()
+	if err != nil {
+		return math.NaN()
+	}
+	var sum float64
+	for _, mf := range mfs {
+		if mf.GetName() == "ws_connected_clients" {
+			for _, m := range mf.GetMetric() {
+				sum += m.GetGauge().GetValue()
+			}
+		}
+	}
+	return sum
+}
+
+var handlerFrame = regexp.MustCompile(`hagall/websocket\.\(\*handler\)|hagall/websocket\.\(\*handlerWithLogs\)\.startSummaryWorker|hagall/websocket\.Handle\(`)
+
+// handlerGoroutines counts the goroutines that belong to connection shells
+func handlerGoroutines() int {
+	var buf bytes.Buffer
+	pprof.Lookup("goroutine").WriteTo(&buf, 2)
+	n := 0
+	for _, g := range strings.Split(buf.String(), "\n\n") {
+		if handlerFrame.MatchString(g) {
+			n++
+		}
+	}
+	return n
+}
+
+// ---------------------------------------------------------------- client side
+
+type received struct {
+	Type int32
+	Body []byte
+}
+
+type client struct {
+	tcp    *net.TCPConn
+	ws     *websocket.Conn
+	tag    string
+	mu     sync.Mutex
+	msgs   []received
+	closed bool
+	cond   *sync.Cond
+	reading bool
+}
+
+var tagN int64
+
+func (s *l2server) dial(params string, rcvbuf int) (*client, error) {
+	u, _ := url.Parse(s.ts.URL)
+	addr, _ := net.ResolveTCPAddr("tcp", u.Host)
+	tcp, err := net.DialTCP("tcp", nil, addr)
+	if err != nil {
+		return nil, err
+	}
+	if rcvbuf > 0 {
+		tcp.SetReadBuffer(rcvbuf)
+	}
+	tag := fmt.Sprintf("c%d", atomic.AddInt64(&tagN, 1))
+	loc := "ws://" + u.Host + "/?tag=" + tag
+	if params != "" {
+		loc += "&" + params
+	}
+	cfg, err := websocket.NewConfig(loc, "http://localhost/")
+	if err != nil {
+		return nil, err
+	}
+	ws, err := websocket.NewClient(cfg, tcp)
+	if err != nil {
+		tcp.Close()
+		return nil, err
+	}
+	ws.MaxPayloadBytes = 64 << 20
+	c := &client{tcp: tcp, ws: ws, tag: tag}
+	c.cond = sync.NewCond(&c.mu)
+	return c, nil
+}
+
+// startReading collects everything the server sends
+func (c *client) startReading() {
+	c.reading = true
+	go func() {
+		for {
+			var b []byte
+			if err := websocket.Message.Receive(c.ws, &b); err != nil {
+				c.mu.Lock()
+				c.closed = true
+				c.cond.Broadcast()
+				c.mu.Unlock()
+				return
+			}
+			var m hagallpb.Msg
+			proto.Unmarshal(b, &m)
+			c.mu.Lock()
+			c.msgs = append(c.msgs, received{Type: int32(m.Type), Body: b})
+			c.cond.Broadcast()
+			c.mu.Unlock()
+		}
+	}()
+}
+
+func (c *client) send(m proto.Message) error {
+	return websocket.Message.Send(c.ws, mustMarshal(m))
+}
+
+func (c *client) sendBytes(b []byte) error { return websocket.Message.Send(c.ws, b) }
+
+// waitFor waits until pred holds on some received message at index >= from; returns its index
+func (c *client) waitFor(from int, timeout time.Duration, pred func(received) bool) (int, bool) {
+	dl := time.Now().Add(timeout)
+	c.mu.Lock()
+	defer c.mu.Unlock()
+	i := from
+	for {
+		for ; i < len(c.msgs); i++ {
+			if pred(c.msgs[i]) {
+				return i, true
+			}
+		}
+		if c.closed || time.Now().After(dl) {
+			return -1, false
+		}
+		t := time.AfterFunc(20*time.Millisecond, func() { c.mu.Lock(); c.cond.Broadcast(); c.mu.Unlock() })
+		c.cond.Wait()
+		t.Stop()
+	}
+}
+
+func (c *client) mark() int { c.mu.Lock(); defer c.mu.Unlock(); return len(c.msgs) }
+
+func (c *client) snapshot(from int) []received {
+	c.mu.Lock()
+	defer c.mu.Unlock()
+	return append([]received(nil), c.msgs[from:]...)
+}
+
+func (c *client) isClosed() bool { c.mu.Lock(); defer c.mu.Unlock(); return c.closed }
+
+func (c *client) reset() {
+	c.tcp.SetLinger(0)
+	c.tcp.Close()
+}
+
+var ridN uint32
+
+func nextRid() uint32 { return atomic.AddUint32(&ridN, 1) }
+
+func now() *timestamppb.Timestamp { return timestamppb.Now() }
+
+// join joins (sid "" = new session); returns session id and participant id
+func (c *client) join(sid string) (string, uint32, error) {
+	rid := nextRid()
+	from := c.mark()
+	if err := c.send(&hagallpb.ParticipantJoinRequest{Type: hagallpb.MsgType_MSG_TYPE_PARTICIPANT_JOIN_REQUEST, Timestamp: now(), RequestId: rid, SessionId: sid}); err != nil {
+		return "", 0, err
+	}
+	i, ok := c.waitFor(from, 3*time.Second, func(r received) bool { return r.Type == 4 || r.Type == 0 })
+	if !ok {
+		return "", 0, fmt.Errorf("no join response")
+	}
+	var res hagallpb.ParticipantJoinResponse
+	r := c.snapshot(i)[0]
+	if r.Type != 4 {
+		return "", 0, fmt.Errorf("join refused")
+	}
+	proto.Unmarshal(r.Body, &res)
+	return res.SessionId, res.ParticipantId, nil
+}
+
+func (c *client) addEntity(persist bool) (uint32, error) {
+	rid := nextRid()
+	from := c.mark()
+	if err := c.send(&hagallpb.EntityAddRequest{Type: hagallpb.MsgType_MSG_TYPE_ENTITY_ADD_REQUEST, Timestamp: now(), RequestId: rid, Persist: persist, Pose: pose(1)}); err != nil {
+		return 0, err
+	}
+	i, ok := c.waitFor(from, 3*time.Second, func(r received) bool { return r.Type == 9 })
+	if !ok {
+		return 0, fmt.Errorf("no entity add response")
+	}
+	var res hagallpb.EntityAddResponse
+	proto.Unmarshal(c.snapshot(i)[0].Body, &res)
+	return res.EntityId, nil
+}
+
+// ping: round trip through the connection's main loop
+func (c *client) ping(timeout time.Duration) bool {
+	rid := nextRid()
+	from := c.mark()
+	if err := c.send(&hagallpb.Request{Type: hagallpb.MsgType_MSG_TYPE_PING_REQUEST, Timestamp: now(), RequestId: rid}); err != nil {
+		return false
+	}
+	_, ok := c.waitFor(from, timeout, func(r received) bool {
+		if r.Type != 39 {
+			return false
+		}
+		var res hagallpb.Response
+		proto.Unmarshal(r.Body, &res)
+		return res.RequestId == rid
+	})
+	return ok
+}
+
+// members: participants of a session as a fresh joiner is told (then the probe leaves)
+func (s *l2server) members(sid string) ([]uint32, error) {
+	p, err := s.dial("", 0)
+	if err != nil {
+		return nil, err
+	}
+	defer p.tcp.Close()
+	p.startReading()
+	rid := nextRid()
+	if err := p.send(&hagallpb.ParticipantJoinRequest{Type: hagallpb.MsgType_MSG_TYPE_PARTICIPANT_JOIN_REQUEST, Timestamp: now(), RequestId: rid, SessionId: sid}); err != nil {
+		return nil, err
+	}
+	i, ok := p.waitFor(0, 3*time.Second, func(r received) bool { return r.Type == 2 || r.Type == 0 })
+	if !ok {
+		return nil, fmt.Errorf("probe: no session state")
+	}
+	r := p.snapshot(i)[0]
+	if r.Type == 0 {
+		return nil, nil // session does not exist any more
+	}
+	var st hagallpb.SessionState
+	proto.Unmarshal(r.Body, &st)
+	var out []uint32
+	for _, x := range st.Participants {
+		out = append(out, x.Id)
+	}
+	sort.Slice(out, func(i, j int) bool { return out[i] < out[j] })
+	return out, nil
+}
+
+// frame builds one masked client frame (x/net/websocket hybi framing)
+func frame(opcode byte, payload []byte) []byte {
+	var b []byte
+	b = append(b, 0x80|opcode)
+	n := len(payload)
+	switch {
+	case n < 126:
+		b = append(b, 0x80|byte(n))
+	case n < 65536:
+		b = append(b, 0x80|126, byte(n>>8), byte(n))
+	default:
+		b = append(b, 0x80|127)
+		var l [8]byte
+		binary.BigEndian.PutUint64(l[:], uint64(n))
+		b = append(b, l[:]...)
+	}
+	mask := [4]byte{1, 2, 3, 4}
+	b = append(b, mask[:]...)
+	for i, x := range payload {
+		b = append(b, x^mask[i%4])
+	}
+	return b
+}
+
+// ---------------------------------------------------------------- outcomes
+
+type Outcome struct {
+	Script   string `json:"script"`
+	Param    int    `json:"param"`
+	Rep      int    `json:"rep"`
+	Joined   bool   `json:"joined"`
+	// observables
+	Returned        bool  `json:"returned"`          // websocket.Handle returned within the deadline
+	ReturnedByPanic bool  `json:"returned_by_panic"` // ... by a panic (net/http recovered it)
+	ReturnMs        int64 `json:"return_ms"`
+	DisconnectCalls int   `json:"disconnect_calls"`
+	GaugeBack       bool  `json:"gauge_back"`
+	GoroutinesBack  bool  `json:"goroutines_back"`
+	LeaveSeen       int   `json:"leave_seen"`       // leave broadcasts for the offender seen by the witness of the same session
+	DeletesOK       bool  `json:"deletes_ok"`       // exactly the non persistent entities of the offender were deleted, once each
+	Ghost           bool  `json:"ghost"`            // the offender is still listed as a member afterwards
+	SameSessionOK   bool  `json:"same_session_ok"`  // witness of the same session gets an answer afterwards
+	OtherSessionOK  bool  `json:"other_session_ok"` // witness of another session gets an answer afterwards
+	EndedEarly      bool  `json:"ended_early"`      // (idle scripts) the connection was ended while it was still sending
+	Note            string `json:"note,omitempty"`
+	Class           string `json:"class"` // projection compared with Conn.v: clean | wedged | ghost | double | kept
+	WantKept        bool  `json:"want_kept"` // the script expects the connection to stay open
+}
+
+type l2env struct {
+	s      *l2server
+	w1     *client // witness, member of session S1
+	w2     *client // witness, member of another session
+	s1     string
+	quick  bool
+	deadline time.Duration
+}
+
+func (e *l2env) setupWitnesses() error {
+	var err error
+	if e.w1, err = e.s.dial("", 0); err != nil {
+		return err
+	}
+	e.w1.startReading()
+	if e.s1, _, err = e.w1.join(""); err != nil {
+		return err
+	}
+	if e.w2, err = e.s.dial("", 0); err != nil {
+		return err
+	}
+	e.w2.startReading()
+	if _, _, err = e.w2.join(""); err != nil {
+		return err
+	}
+	return nil
+}
+
+type offender struct {
+	c        *client
+	pid      uint32
+	ents     []uint32 // non persistent
+	pents    []uint32 // persistent
+	g0       float64
+	n0       int
+	w1mark   int
+	joined   bool
+}
+
+// begin opens the offender connection; joined: member of S1 with one non persistent and one persistent entity
+func (e *l2env) begin(joined bool, params string, rcvbuf int) (*offender, error) {
+	o := &offender{g0: gaugeClients(), n0: handlerGoroutines(), w1mark: e.w1.mark(), joined: joined}
+	c, err := e.s.dial(params, rcvbuf)
+	if err != nil {
+		return nil, err
+	}
+	o.c = c
+	if joined {
+		c.startReading()
+		if _, o.pid, err = c.join(e.s1); err != nil {
+			return nil, err
+		}
+		a, err := c.addEntity(false)
+		if err != nil {
+			return nil, err
+		}
+		b, err := c.addEntity(true)
+		if err != nil {
+			return nil, err
+		}
+		o.ents, o.pents = []uint32{a}, []uint32{b}
+		// the witness has seen both adds: a barrier so that later broadcasts are attributable
+		e.w1.waitFor(o.w1mark, 2*time.Second, func(r received) bool {
+			if r.Type != 10 {
+				return false
+			}
+			var m hagallpb.EntityAddBroadcast
+			proto.Unmarshal(r.Body, &m)
+			return m.Entity.GetId() == b
+		})
+	}
+	return o, nil
+}
+
+// observe waits for the end of the offender's connection shell and collects the observables
+func (e *l2env) observe(o *offender, out *Outcome) {
+	out.Joined = o.joined
+	rec := e.s.rec(o.c.tag, time.Second)
+	t0 := time.Now()
+	if rec != nil {
+		select {
+		case <-rec.returned:
+			out.Returned = true
+			out.ReturnedByPanic = !rec.normal
+		case <-time.After(e.deadline):
+		}
+		out.DisconnectCalls = int(atomic.LoadInt32(&rec.discCalls))
+	} else {
+		out.Note += "no server-side record; "
+	}
+	out.ReturnMs = time.Since(t0).Milliseconds()
+	// gauge and goroutines settle shortly after the return
+	settle := time.Now().Add(time.Second)
+	if !out.Returned {
+		settle = time.Now()
+	}
+	for {
+		out.GaugeBack = gaugeClients() == o.g0
+		out.GoroutinesBack = handlerGoroutines() <= o.n0
+		if (out.GaugeBack && out.GoroutinesBack) || time.Now().After(settle) {
+			break
+		}
+		time.Sleep(5 * time.Millisecond)
+	}
+	if o.joined {
+		// the same-session witness: a ping round trip is a barrier after which every broadcast of the departure has arrived
+		out.SameSessionOK = e.w1.ping(2 * time.Second)
+		dels := map[uint32]int{}
+		for _, r := range e.w1.snapshot(o.w1mark) {
+			switch r.Type {
+			case 7:
+				var m hagallpb.ParticipantLeaveBroadcast
+				proto.Unmarshal(r.Body, &m)
+				if m.ParticipantId == o.pid {
+					out.LeaveSeen++
+				}
+			case 13:
+				var m hagallpb.EntityDeleteBroadcast
+				proto.Unmarshal(r.Body, &m)
+				dels[m.EntityId]++
+			}
+		}
+		out.DeletesOK = true
+		for _, id := range o.ents {
+			if dels[id] != 1 {
+				out.DeletesOK = false
+			}
+		}
+		for _, id := range o.pents {
+			if dels[id] != 0 {
+				out.DeletesOK = false
+			}
+		}
+		if mem, err := e.s.members(e.s1); err == nil {
+			for _, p := range mem {
+				if p == o.pid {
+					out.Ghost = true
+				}
+			}
+		} else {
+			out.Note += "probe failed: " + err.Error() + "; "
+		}
+	} else {
+		out.SameSessionOK = e.w1.ping(2 * time.Second)
+	}
+	out.OtherSessionOK = e.w2.ping(2 * time.Second)
+	out.Class = classify(out)
+}
+
+// classify projects the observables to the outcome classes of Conn.v
+func classify(o *Outcome) string {
+	switch {
+	case !o.Returned:
+		return "wedged"
+	case o.ReturnedByPanic || o.DisconnectCalls == 0 || o.Ghost:
+		return "ghost"
+	case o.DisconnectCalls > 1 || o.LeaveSeen > 1:
+		return "double"
+	default:
+		return "clean"
+	}
+}
+
+// holds: the property predicate evaluated on the implementation's observables
+func (o *Outcome) holds() (bool, string) {
+	if o.WantKept {
+		if o.EndedEarly {
+			return false, "a connection that keeps sending was disconnected"
+		}
+	}
+	var bad []string
+	if !o.Returned {
+		bad = append(bad, "websocket.Handle did not return")
+	}
+	if o.ReturnedByPanic {
+		bad = append(bad, "websocket.Handle left by a panic")
+	}
+	if o.DisconnectCalls != 1 {
+		bad = append(bad, fmt.Sprintf("HandleDisconnect called %d times", o.DisconnectCalls))
+	}
+	if !o.GaugeBack {
+		bad = append(bad, "ws_connected_clients did not return to its previous value")
+	}
+	if !o.GoroutinesBack {
+		bad = append(bad, "goroutines of the connection shell still alive")
+	}
+	if o.Joined {
+		if o.LeaveSeen != 1 {
+			bad = append(bad, fmt.Sprintf("witness saw %d leave broadcasts", o.LeaveSeen))
+		}
+		if !o.DeletesOK {
+			bad = append(bad, "witness did not see exactly the deletes of the leaver's non persistent entities")
+		}
+		if o.Ghost {
+			bad = append(bad, "the leaver is still a member of its session")
+		}
+	}
+	if !o.SameSessionOK {
+		bad = append(bad, "witness in the same session gets no answer")
+	}
+	if !o.OtherSessionOK {
+		bad = append(bad, "witness in another session gets no answer")
+	}
+	return len(bad) == 0, strings.Join(bad, "; ")
+}
+
+// ---------------------------------------------------------------- scripts
+
+func failingUnjoined() []byte {
+	return mustMarshal(&hagallpb.EntityAddRequest{Type: hagallpb.MsgType_MSG_TYPE_ENTITY_ADD_REQUEST, Timestamp: now(), RequestId: nextRid()})
+}
+
+func failingJoined() []byte {
+	// answered BAD_REQUEST, then the handler returns an error (websocket/realtime.go HandleReceipt)
+	return mustMarshal(&hagallpb.ReceiptRequest{Type: hagallpb.MsgType_MSG_TYPE_RECEIPT_REQUEST, Timestamp: now(), RequestId: nextRid()})
+}
+
+// burst: n failing requests written in one TCP write
+func (e *l2env) scriptBurst(n int, joined bool, rep int) Outcome {
+	out := Outcome{Script: "burst", Param: n, Rep: rep}
+	if joined {
+		out.Script = "burst_joined"
+	}
+	o, err := e.begin(joined, "", 0)
+	if err != nil {
+		out.Note = "setup: " + err.Error()
+		out.Class = "setup-failed"
+		return out
+	}
+	var buf []byte
+	for i := 0; i < n; i++ {
+		if joined {
+			buf = append(buf, frame(2, failingJoined())...)
+		} else {
+			buf = append(buf, frame(2, failingUnjoined())...)
+		}
+	}
+	o.c.tcp.Write(buf)
+	if !joined {
+		o.c.startReading()
+	}
+	e.observe(o, &out)
+	o.c.tcp.Close()
+	return out
+}
+
+// malformed frames
+func (e *l2env) scriptMalformed(kind int, joined bool) Outcome {
+	names := []string{"truncated_protobuf", "text_frame", "no_timestamp", "garbage_1MiB", "raw_garbage_bytes", "undecodable_body", "huge_declared_length", "unknown_opcode"}
+	out := Outcome{Script: "malformed_" + names[kind], Param: kind}
+	if joined {
+		out.Script += "_joined"
+	}
+	o, err := e.begin(joined, "", 0)
+	if err != nil {
+		out.Note = "setup: " + err.Error()
+		out.Class = "setup-failed"
+		return out
+	}
+	if !joined {
+		o.c.startReading()
+	}
+	valid := mustMarshal(&hagallpb.Request{Type: hagallpb.MsgType_MSG_TYPE_PING_REQUEST, Timestamp: now(), RequestId: 1})
+	switch kind {
+	case 0:
+		o.c.tcp.Write(frame(2, valid[:len(valid)-1]))
+	case 1:
+		o.c.tcp.Write(frame(1, []byte("hello")))
+	case 2:
+		o.c.tcp.Write(frame(2, mustMarshal(&hagallpb.Request{Type: hagallpb.MsgType_MSG_TYPE_PING_REQUEST, RequestId: 1})))
+	case 3:
+		g := make([]byte, 1<<20)
+		for i := range g {
+			g[i] = byte(i*7 + 13)
+		}
+		o.c.tcp.Write(frame(2, g))
+	case 4:
+		g := make([]byte, 4096)
+		for i := range g {
+			g[i] = byte(i*31 + 7)
+		}
+		o.c.tcp.Write(g)
+	case 5:
+		// passes the receiver (hagallpb.Msg parses), fails in the handler's own decoding
+		b := mustMarshal(&hagallpb.Msg{Type: hagallpb.MsgType_MSG_TYPE_ENTITY_ADD_REQUEST, Timestamp: now()})
+		b = append(b, 0x1a, 0x03, 0xff, 0xfe, 0xfd) // field 3 (pose), 3 bytes of garbage
+		o.c.tcp.Write(frame(2, b))
+	case 6:
+		// a frame header announcing 2^40 bytes, then nothing
+		o.c.tcp.Write([]byte{0x82, 0x80 | 127, 0, 0, 1, 0, 0, 0, 0, 0, 1, 2, 3, 4})
+		time.Sleep(50 * time.Millisecond)
+		o.c.tcp.Close()
+	case 7:
+		o.c.tcp.Write(frame(0xb, []byte("x")))
+		time.Sleep(50 * time.Millisecond)
+		o.c.tcp.Close()
+	}
+	e.observe(o, &out)
+	o.c.tcp.Close()
+	return out
+}
+
+// reset: abrupt TCP reset at point k of a short session
+func (e *l2env) scriptReset(k int) Outcome {
+	out := Outcome{Script: "reset", Param: k}
+	joined := k >= 2
+	o, err := e.begin(joined, "", 0)
+	if err != nil {
+		out.Note = "setup: " + err.Error()
+		out.Class = "setup-failed"
+		return out
+	}
+	switch k {
+	case 0: // right after the handshake
+	case 1: // join request written, response not read
+		o.c.send(&hagallpb.ParticipantJoinRequest{Type: hagallpb.MsgType_MSG_TYPE_PARTICIPANT_JOIN_REQUEST, Timestamp: now(), RequestId: nextRid()})
+	case 2: // member with entities, idle
+	case 3: // in the middle of a frame
+		f := frame(2, mustMarshal(&hagallpb.EntityAddRequest{Type: hagallpb.MsgType_MSG_TYPE_ENTITY_ADD_REQUEST, Timestamp: now(), RequestId: nextRid(), Pose: pose(1)}))
+		o.c.tcp.Write(f[:len(f)/2])
+	case 4: // after a burst of valid requests whose answers are not read
+		var buf []byte
+		for i := 0; i < 200; i++ {
+			buf = append(buf, frame(2, mustMarshal(&hagallpb.Request{Type: hagallpb.MsgType_MSG_TYPE_PING_REQUEST, Timestamp: now(), RequestId: nextRid()}))...)
+		}
+		o.c.tcp.Write(buf)
+	case 5: // polite close frame, then FIN
+		o.c.tcp.Write(frame(8, []byte{0x03, 0xe8}))
+		time.Sleep(20 * time.Millisecond)
+		o.c.tcp.Close()
+		e.observe(o, &out)
+		return out
+	case 6: // half close: FIN without reset, the client keeps reading
+		o.c.tcp.CloseWrite()
+		e.observe(o, &out)
+		o.c.tcp.Close()
+		return out
+	}
+	o.c.reset()
+	e.observe(o, &out)
+	return out
+}
+
+// stall: the offender (member of S1) stops reading while the witness floods the session; then it closes
+func (e *l2env) scriptStallThenClose() Outcome {
+	out := Outcome{Script: "stall_then_close"}
+	// two members of S1 besides the witness: `o`, which reads normally and is observed like every
+	// other offender, and `st`, which joins and never reads (small receive buffer)
+	o, err := e.begin(true, "", 0)
+	if err != nil {
+		out.Note = "setup: " + err.Error()
+		out.Class = "setup-failed"
+		return out
+	}
+	st, err := e.s.dial("", 4096)
+	if err != nil {
+		out.Note = "setup: " + err.Error()
+		out.Class = "setup-failed"
+		return out
+	}
+	// join without ever reading: the request is written, answers pile up
+	st.send(&hagallpb.ParticipantJoinRequest{Type: hagallpb.MsgType_MSG_TYPE_PARTICIPANT_JOIN_REQUEST, Timestamp: now(), RequestId: nextRid(), SessionId: e.s1})
+	time.Sleep(50 * time.Millisecond)
+	// flood: the witness sends custom messages, relayed to every member, the stalled one included
+	body := make([]byte, 10000)
+	sent := 0
+	floodDone := make(chan struct{})
+	go func() {
+		defer close(floodDone)
+		for i := 0; i < 2500; i++ {
+			e.w1.tcp.SetWriteDeadline(time.Now().Add(2 * time.Second))
+			if err := e.w1.send(&hagallpb.CustomMessage{Type: hagallpb.MsgType_MSG_TYPE_CUSTOM_MESSAGE, Timestamp: now(), Body: body}); err != nil {
+				break
+			}
+			sent++
+		}
+		e.w1.tcp.SetWriteDeadline(time.Time{})
+	}()
+	select {
+	case <-floodDone:
+	case <-time.After(6 * time.Second):
+	}
+	// while the member is stalled: is the flooding witness's own shell still responsive?
+	stalledPeerBlocked := !e.w1.ping(500 * time.Millisecond)
+	otherOK := e.w2.ping(2 * time.Second)
+	out.Note = fmt.Sprintf("flood sent=%d; while stalled: same-session witness blocked=%v, other session ok=%v; ", sent, stalledPeerBlocked, otherOK)
+	// the stalled client goes away
+	strec := e.s.rec(st.tag, time.Second)
+	st.reset()
+	<-floodDone
+	if strec != nil {
+		select {
+		case <-strec.returned:
+			out.Note += "stalled member's shell returned; "
+		case <-time.After(e.deadline):
+			out.Note += "stalled member's shell did NOT return; "
+			out.Returned = false
+			out.Class = "wedged"
+		}
+	}
+	// the regular offender (a reading member that saw the flood) now closes abruptly; observe it
+	o.c.reset()
+	e.observe(o, &out)
+	if strec != nil {
+		select {
+		case <-strec.returned:
+			if atomic.LoadInt32(&strec.discCalls) != 1 || !strec.normal {
+				out.Class = "ghost"
+				out.Note += fmt.Sprintf("stalled member: disconnect calls=%d normal=%v; ", strec.discCalls, strec.normal)
+			}
+		default:
+			out.Returned = false
+			out.Class = "wedged"
+		}
+	}
+	if !otherOK {
+		out.OtherSessionOK = false
+	}
+	return out
+}
+
+// idle: silence for the (shortened) idle timeout ends the connection through the normal path;
+// variant 1: a client that keeps pinging is kept, and ended once it falls silent
+// variant 2: a client that sends only pose updates while in no session (K5)
+func (e *l2env) scriptIdle(variant int) Outcome {
+	names := []string{"idle_silent", "idle_pinging", "idle_pose_only_unjoined", "idle_silent_joined", "idle_pose_only_joined"}
+	out := Outcome{Script: names[variant], Param: variant}
+	idle := 400 * time.Millisecond
+	joined := variant == 3 || variant == 4
+	o, err := e.begin(joined, "idle="+idle.String()+"&sync=100ms", 0)
+	if err != nil {
+		out.Note = "setup: " + err.Error()
+		out.Class = "setup-failed"
+		return out
+	}
+	if !joined {
+		o.c.startReading()
+	}
+	rec := e.s.rec(o.c.tag, time.Second)
+	t0 := time.Now()
+	switch variant {
+	case 0, 3:
+		// nothing
+	case 1, 2, 4:
+		out.WantKept = variant != 2
+		// keep sending for 3 idle timeouts
+		for time.Since(t0) < 3*idle {
+			var err error
+			switch variant {
+			case 1:
+				err = o.c.send(&hagallpb.Request{Type: hagallpb.MsgType_MSG_TYPE_PING_REQUEST, Timestamp: now(), RequestId: nextRid()})
+			case 2:
+				err = o.c.send(&hagallpb.EntityUpdatePose{Type: hagallpb.MsgType_MSG_TYPE_ENTITY_UPDATE_POSE, Timestamp: now(), EntityId: 1, Pose: pose(1)})
+			case 4:
+				err = o.c.send(&hagallpb.EntityUpdatePose{Type: hagallpb.MsgType_MSG_TYPE_ENTITY_UPDATE_POSE, Timestamp: now(), EntityId: o.ents[0], Pose: pose(1)})
+			}
+			ended := false
+			if rec != nil {
+				select {
+				case <-rec.returned:
+					ended = true
+				default:
+				}
+			}
+			if err != nil || ended || o.c.isClosed() {
+				out.EndedEarly = true
+				break
+			}
+			time.Sleep(idle / 8)
+		}
+		out.Note = fmt.Sprintf("kept sending for %dms; ended early=%v; ", time.Since(t0).Milliseconds(), out.EndedEarly)
+	}
+	// now silent: must be ended within the idle timeout (plus slack)
+	e.observe(o, &out)
+	if out.Returned && rec != nil {
+		out.Note += fmt.Sprintf("ended %dms after the connection opened; ", rec.returnedAt.Sub(t0).Milliseconds())
+		if (variant == 0 || variant == 3) && rec.returnedAt.Sub(t0) < idle*3/4 {
+			out.Note += "ended before the idle timeout; "
+			out.EndedEarly = true
+			out.WantKept = true
+		}
+	}
+	o.c.tcp.Close()
+	return out
+}
+
+// hostile: L1 failing requests replayed over the wire (what a handler panic does to the real stack)
+func (e *l2env) scriptHostile(k int) Outcome {
+	names := []string{"hostile_ground_plane_no_ray", "hostile_quad_no_center", "hostile_region_no_min", "hostile_quad_nan", "hostile_diagonal_ray", "hostile_then_more_traffic"}
+	out := Outcome{Script: names[k], Param: k}
+	o, err := e.begin(true, "", 0)
+	if err != nil {
+		out.Note = "setup: " + err.Error()
+		out.Class = "setup-failed"
+		return out
+	}
+	nan := float32(math.NaN())
+	var m proto.Message
+	switch k {
+	case 0, 5:
+		m = &dagazpb.DagazGetGroundPlaneRequest{Type: dagazpb.MsgType_MSG_TYPE_DAGAZ_GET_GROUND_PLANE_REQUEST, Timestamp: now(), RequestId: nextRid()}
+	case 1:
+		m = &dagazpb.DagazQuadSample{Type: dagazpb.MsgType_MSG_TYPE_DAGAZ_QUAD_SAMPLE, Timestamp: now(), Samples: []*dagazpb.Quad{{Extents: pt(1, 0, 1)}}}
+	case 2:
+		m = &dagazpb.DagazGetRegionRequest{Type: dagazpb.MsgType_MSG_TYPE_DAGAZ_GET_REGION_REQUEST, Timestamp: now(), RequestId: nextRid(), Max: pt(1, 0, 1)}
+	case 3:
+		m = &dagazpb.DagazQuadSample{Type: dagazpb.MsgType_MSG_TYPE_DAGAZ_QUAD_SAMPLE, Timestamp: now(), Samples: []*dagazpb.Quad{{Center: pt(nan, 0, 1e30), Extents: pt(1, 0, 1)}}}
+	case 4:
+		m = &dagazpb.DagazGetGroundPlaneRequest{Type: dagazpb.MsgType_MSG_TYPE_DAGAZ_GET_GROUND_PLANE_REQUEST, Timestamp: now(), RequestId: nextRid(),
+			Ray: &dagazpb.Ray{From: pt(-5, 1, -3), To: pt(7, -1, 4)}}
+	}
+	o.c.send(m)
+	if k == 5 {
+		// the client keeps talking after the poisonous request
+		for i := 0; i < 50; i++ {
+			o.c.send(&hagallpb.EntityUpdatePose{Type: hagallpb.MsgType_MSG_TYPE_ENTITY_UPDATE_POSE, Timestamp: now(), EntityId: o.ents[0], Pose: pose(2)})
+			o.c.send(&hagallpb.Request{Type: hagallpb.MsgType_MSG_TYPE_PING_REQUEST, Timestamp: now(), RequestId: nextRid()})
+			time.Sleep(2 * time.Millisecond)
+		}
+	}
+	// a refused or dropped request keeps the connection open: a well-behaved end follows
+	alive := o.c.ping(time.Second)
+	out.Note = fmt.Sprintf("connection answers after the request: %v; ", alive)
+	if alive {
+		o.c.tcp.Close()
+	}
+	e.observe(o, &out)
+	o.c.tcp.Close()
+	return out
+}
+
+// ---------------------------------------------------------------- child / parent
+
+type scriptSpec struct {
+	Name string
+	Reps int
+}
+
+func planFor(tier string, burstReps int) []scriptSpec {
+	var p []scriptSpec
+	for k := 0; k < 8; k++ {
+		p = append(p, scriptSpec{fmt.Sprintf("malformed:%d:0", k), 1}, scriptSpec{fmt.Sprintf("malformed:%d:1", k), 1})
+	}
+	for k := 0; k <= 6; k++ {
+		p = append(p, scriptSpec{fmt.Sprintf("reset:%d", k), 2})
+	}
+	for v := 0; v < 5; v++ {
+		p = append(p, scriptSpec{fmt.Sprintf("idle:%d", v), 1})
+	}
+	for k := 0; k < 6; k++ {
+		p = append(p, scriptSpec{fmt.Sprintf("hostile:%d", k), 1})
+	}
+	p = append(p, scriptSpec{"stall", 1})
+	for _, n := range []int{1, 8, 9, 40, 300} {
+		p = append(p, scriptSpec{fmt.Sprintf("burst:%d:0", n), burstReps}, scriptSpec{fmt.Sprintf("burst:%d:1", n), burstReps / 4})
+	}
+	return p
+}
+
+func (e *l2env) run(name string, rep int) Outcome {
+	p := strings.Split(name, ":")
+	arg := func(i int) int {
+		if i < len(p) {
+			n, _ := strconv.Atoi(p[i])
+			return n
+		}
+		return 0
+	}
+	var o Outcome
+	switch p[0] {
+	case "malformed":
+		o = e.scriptMalformed(arg(1), arg(2) == 1)
+	case "reset":
+		o = e.scriptReset(arg(1))
+	case "idle":
+		o = e.scriptIdle(arg(1))
+	case "hostile":
+		o = e.scriptHostile(arg(1))
+	case "stall":
+		o = e.scriptStallThenClose()
+	case "burst":
+		o = e.scriptBurst(arg(1), arg(2) == 1, rep)
+	default:
+		o = Outcome{Script: name, Class: "setup-failed", Note: "unknown script"}
+	}
+	o.Rep = rep
+	return o
+}
+
+// l2Child: runs the scripts named on stdin-free argv (`-scripts a,b,c -reps n,n,n`), one JSON line per outcome
+func l2Child(args []string) int {
+	fs := flag.NewFlagSet("l2child", flag.ExitOnError)
+	scripts := fs.String("scripts", "", "comma separated script names")
+	reps := fs.String("reps", "", "comma separated repetition counts")
+	from := fs.Int("from", 0, "first repetition of the first script")
+	deadline := fs.Duration("deadline", 2*time.Second, "how long websocket.Handle may take to return")
+	fs.Parse(args)
+	s := newL2Server()
+	e := &l2env{s: s, deadline: *deadline}
+	w := bufio.NewWriter(os.Stdout)
+	emit := func(kind string, v interface{}) {
+		b, _ := json.Marshal(v)
+		fmt.Fprintf(w, "%s %s\n", kind, b)
+		w.Flush()
+	}
+	if err := e.setupWitnesses(); err != nil {
+		emit("X", map[string]string{"error": "witness setup: " + err.Error()})
+		return 3
+	}
+	names := strings.Split(*scripts, ",")
+	rs := strings.Split(*reps, ",")
+	for i, name := range names {
+		n := 1
+		if i < len(rs) {
+			n, _ = strconv.Atoi(rs[i])
+		}
+		start := 0
+		if i == 0 {
+			start = *from
+		}
+		for r := start; r < n; r++ {
+			emit("B", map[string]interface{}{"script": name, "rep": r})
+			o := e.run(name, r)
+			emit("O", o)
+			// a witness that lost its connection (it should never) is replaced so that later scripts still run
+			if e.w1.isClosed() || e.w2.isClosed() {
+				emit("W", map[string]string{"note": "a witness connection was closed by the server after " + name})
+				if err := e.setupWitnesses(); err != nil {
+					emit("X", map[string]string{"error": "witness setup: " + err.Error()})
+					return 3
+				}
+			}
+		}
+	}
+	emit("Z", map[string]int{"goroutines": handlerGoroutines()})
+	return 0
+}
+
+type l2Report struct {
+	Outcomes   []Outcome          `json:"outcomes"` // bursts: only the non clean ones and a few samples
+	Counts     map[string]map[string]int `json:"class_counts"` // script(param) -> class -> count
+	Violations []Outcome          `json:"violations"`
+	Crashes    []map[string]string `json:"crashes"`
+	Runs       int                `json:"runs"`
+	WallS      float64            `json:"wall_s"`
+	Distinct   []string           `json:"distinct_cases"` // (script, joined, class) triples for the Conn.v comparison
+}
+
+func l2Parent(args []string) int {
+	fs := flag.NewFlagSet("l2", flag.ExitOnError)
+	tier := fs.String("tier", "quick", "")
+	outPath := fs.String("out", "l2.json", "")
+	burstReps := fs.Int("burstreps", 300, "repetitions of each burst script")
+	only := fs.String("only", "", "only scripts whose name starts with this")
+	deadline := fs.Duration("deadline", 2*time.Second, "")
+	maxViol := fs.Int("maxviol", 25, "stop a repeated script after this many violations")
+	fs.Parse(args)
+	t0 := time.Now()
+	plan := planFor(*tier, *burstReps)
+	if *only != "" {
+		var p2 []scriptSpec
+		for _, s := range plan {
+			if strings.HasPrefix(s.Name, *only) {
+				p2 = append(p2, s)
+			}
+		}
+		plan = p2
+	}
+	rep := l2Report{Counts: map[string]map[string]int{}}
+	self, _ := os.Executable()
+	distinct := map[string]bool{}
+	idx, from := 0, 0
+	for idx < len(plan) {
+		var names, reps []string
+		for _, s := range plan[idx:] {
+			names = append(names, s.Name)
+			reps = append(reps, strconv.Itoa(s.Reps))
+		}
+		cmd := exec.Command(self, "l2child", "-scripts", strings.Join(names, ","), "-reps", strings.Join(reps, ","), "-from", strconv.Itoa(from), "-deadline", deadline.String())
+		cmd.Env = append(os.Environ(), "GOTRACEBACK=all")
+		stdout, _ := cmd.StdoutPipe()
+		var stderr tailBuf
+		cmd.Stderr = &stderr
+		if err := cmd.Start(); err != nil {
+			fmt.Fprintln(os.Stderr, "cannot start child:", err)
+			return 2
+		}
+		sc := bufio.NewScanner(stdout)
+		sc.Buffer(make([]byte, 1<<20), 1<<24)
+		curScript, curRep := "", 0
+		done := false
+		violPerScript := map[string]int{}
+		killedFor := ""
+		for killedFor == "" && sc.Scan() {
+			l := sc.Text()
+			switch {
+			case strings.HasPrefix(l, "B "):
+				var b struct {
+					Script string
+					Rep    int
+				}
+				json.Unmarshal([]byte(l[2:]), &b)
+				curScript, curRep = b.Script, b.Rep
+			case strings.HasPrefix(l, "O "):
+				var o Outcome
+				json.Unmarshal([]byte(l[2:]), &o)
+				rep.Runs++
+				name := curScript
+				if rep.Counts[name] == nil {
+					rep.Counts[name] = map[string]int{}
+				}
+				rep.Counts[name][o.Class]++
+				distinct[fmt.Sprintf("%s|joined=%v|%s", name, o.Joined, o.Class)] = true
+				ok, why := o.holds()
+				if !ok {
+					o.Note += "PROPERTY: " + why
+					if len(rep.Violations) < 200 {
+						rep.Violations = append(rep.Violations, o)
+					}
+					violPerScript[name]++
+				}
+				if !ok || o.Rep < 1 || !strings.HasPrefix(name, "burst") {
+					if len(rep.Outcomes) < 400 {
+						rep.Outcomes = append(rep.Outcomes, o)
+					}
+				}
+				curScript = ""
+				// a repeated script that keeps failing has made its point: move on to the next script
+				if violPerScript[name] >= *maxViol {
+					killedFor = name
+					cmd.Process.Kill()
+				}
+			case strings.HasPrefix(l, "X "):
+				rep.Crashes = append(rep.Crashes, map[string]string{"script": curScript, "what": l[2:]})
+			case strings.HasPrefix(l, "Z "):
+				done = true
+			}
+		}
+		if killedFor != "" {
+			go func() {
+				for sc.Scan() {
+				}
+			}()
+			cmd.Wait()
+			for i := idx; i < len(plan); i++ {
+				if plan[i].Name == killedFor {
+					idx, from = i+1, 0
+					break
+				}
+			}
+			continue
+		}
+		err := cmd.Wait()
+		if done {
+			break
+		}
+		// the child died: a crash of the server process while curScript was running
+		tail := stderr.String()
+		where := curScript
+		if where == "" {
+			where = "(between scripts)"
+		}
+		rep.Crashes = append(rep.Crashes, map[string]string{"script": where, "rep": strconv.Itoa(curRep), "exit": fmt.Sprint(err), "stderr": firstLines(tail, 4), "frames": repoFrames(tail)})
+		rep.Violations = append(rep.Violations, Outcome{Script: where, Rep: curRep, Class: "crash", Note: "PROPERTY: the server process died: " + firstLines(tail, 3)})
+		if rep.Counts[where] == nil {
+			rep.Counts[where] = map[string]int{}
+		}
+		rep.Counts[where]["crash"]++
+		distinct[fmt.Sprintf("%s|joined=true|crash", where)] = true
+		// continue after the script that crashed the server
+		found := false
+		for i := idx; i < len(plan); i++ {
+			if plan[i].Name == curScript {
+				idx, from = i, curRep+1
+				if from >= plan[i].Reps {
+					idx, from = i+1, 0
+				}
+				found = true
+				break
+			}
+		}
+		if !found {
+			break
+		}
+		if len(rep.Crashes) > 40 {
+			break
+		}
+	}
+	for k := range distinct {
+		rep.Distinct = append(rep.Distinct, k)
+	}
+	sort.Strings(rep.Distinct)
+	rep.WallS = time.Since(t0).Seconds()
+	b, _ := json.MarshalIndent(rep, "", " ")
+	if err := os.WriteFile(*outPath, b, 0o644); err != nil {
+		fmt.Fprintln(os.Stderr, err)
+		return 2
+	}
+	fmt.Printf("l2: %d runs, %d violations, %d crashes, %.1fs\n", rep.Runs, len(rep.Violations), len(rep.Crashes), rep.WallS)
+	return 0
+}
+
+var _ = syscall.SIGQUIT
